@@ -1,0 +1,20 @@
+//go:build verif
+
+// exports for the verification harness in /verif (build tag: verif);
+// this file adds names only and is not part of normal builds
+package parser
+
+import (
+	"github.com/DDP-Projekt/Kompilierer/src/ast"
+	"github.com/DDP-Projekt/Kompilierer/src/token"
+)
+
+func VerifTokenEqual(t1, t2 *token.Token) bool { return tokenEqual(t1, t2) }
+
+func VerifTokenLess(t1, t2 *token.Token) bool { return tokenLess(t1, t2) }
+
+func VerifSortAliases(matchedAliases []ast.Alias) { sortAliases(matchedAliases) }
+
+func VerifOperatorParameterTypesEqual(pi1, pi2 []ast.ParameterInfo) bool {
+	return operatorParameterTypesEqual(pi1, pi2)
+}
